@@ -36,16 +36,79 @@ func EdgesDominate(edges []Edge, target ssa.Instruction) bool {
 // satisfy pred (i.e. "on every path to target, some fact satisfying pred was
 // established").
 func GuardedBy(target ssa.Instruction, pred func(Fact) bool) bool {
+	return guardedBy(target, pred, 0)
+}
+
+func guardedBy(target ssa.Instruction, pred func(Fact) bool, depth int) bool {
 	var es []Edge
 	for _, ef := range EdgeFactsOf(target.Parent()) {
 		if ef.B.Succs[0] == ef.B.Succs[1] {
 			continue
 		}
-		if pred(ef.Fact) {
+		if pred(ef.Fact) || (depth < 2 && helperEstablishes(ef.Fact, pred, depth)) {
 			es = append(es, Edge{ef.B, ef.Succ})
 		}
 	}
 	return EdgesDominate(es, target)
+}
+
+// helperEstablishes: the fact is "helper(...) returned a nil error" (or "helper
+// returned true") for a helper of the module, and the helper returns a
+// possibly-nil error (true) only where a fact accepted by pred holds in it. A
+// test that was moved into an error-returning helper ("if err :=
+// s.checkNotSentLocked(); err != nil { return err }") then still guards what
+// follows the call. The operands of the facts seen by pred are values of the
+// helper.
+func helperEstablishes(f Fact, pred func(Fact) bool, depth int) bool {
+	var call *ssa.Call
+	idx := 0
+	wantBool := false
+	switch {
+	case f.Op == token.EQL && IsNilConst(f.Y):
+		c, i, ok := CallResult(f.X)
+		if !ok || !IsErrorType(f.X.Type()) {
+			return false
+		}
+		call, idx = c, i
+	case f.Op == token.ILLEGAL && !f.Neg:
+		c, i, ok := CallResult(f.X)
+		if !ok {
+			return false
+		}
+		if b, isB := f.X.Type().Underlying().(*types.Basic); !isB || b.Kind() != types.Bool {
+			return false
+		}
+		call, idx, wantBool = c, i, true
+	default:
+		return false
+	}
+	h := call.Call.StaticCallee()
+	if h == nil || h.Blocks == nil || h.Pkg == nil || !strings.HasPrefix(h.Pkg.Pkg.Path(), ModulePath) {
+		return false
+	}
+	rets := Returns(h)
+	if len(rets) == 0 {
+		return false
+	}
+	n := 0
+	for _, r := range rets {
+		if idx >= len(r.Results) {
+			return false
+		}
+		res := r.Results[idx]
+		if wantBool {
+			if b, isC := ConstBool(res); isC && !b {
+				continue // a 'false' return establishes nothing and needs nothing
+			}
+		} else if ClassifyErr(res, r) == ErrNonNil {
+			continue
+		}
+		n++
+		if !guardedBy(r, pred, depth+1) {
+			return false
+		}
+	}
+	return n > 0
 }
 
 // VariadicArgs unpacks the slice passed for a variadic parameter when it was
